@@ -16,6 +16,8 @@ RULE = (
     "analyses. Oracle: every *_dev/*_error equals the Bendat-Piersol expression typed from the property text (rtol "
     "1e-12), dev == estimate*error, error(4n)==error(n)/2, mag_err<=rad_err<=(pi/2)mag_err, rad/mag<=1+1e-3 for "
     "g2>=1-1e-6, deg==rad*180/pi, auto results have Gxx_dev=Gxx/sqrt(n) and None for cross-only quantities. "
+    "A third of the real and a sixth of the synthetic results are drawn (plot with an error band of sigma deviations, "
+    "Agg backend) before their error bars are read. "
     "(c) Monte-Carlo grid g2 in {0.1,0.3,0.5,0.7,0.9,0.97} x n in {32,128}: Gaussian records, olap=0, Hann, "
     "single-bin analyses (navg==n asserted), M realisations; std over realisations of Gxx, coh, |Hxy| and complex Gxy "
     "divided by the mean reported deviation must lie in 1+-0.25 (quick, M=500) / 1+-0.15 (thorough, M=3000). "
